@@ -455,7 +455,10 @@ def run_property(prop, mod, tier, only=None, jobs=None):
         "wall_s": round(wall, 2),
         "violations": violations,
     }
-    with open(os.path.join(VERIF, "evidence", prop + ".json"), "w") as f:
+    # partial runs (--only) must not overwrite the evidence of the full check
+    evdir = os.path.join(VERIF, "evidence") if not only else os.path.join(OUT, "evidence_partial")
+    os.makedirs(evdir, exist_ok=True)
+    with open(os.path.join(evdir, prop + ".json"), "w") as f:
         json.dump(ev, f, indent=1)
     for l in lines:
         print(l)
